@@ -133,9 +133,13 @@ def hostile_codec_files(rng):
                b'\x81', b'\x8f\xa1', b'\xa1', b'\xfd\xff', b'\x80\x80\x80', b'\xed\xa0\x80', b'\xf4\x90\x80\x80', b'\xc0\x80']
     out = []
     for n in sorted(names):
-        if not ML.asc(n):
-            continue
-        for k, h in enumerate(hostile):
+        # every codec name, also those the tool does not accept as ASCII-compatible (it must then fall back to ASCII, not fail):
+        # which names are in scope is not the tool's own predicate to decide; the full hostile list only for the accepted ones
+        try:
+            accepted = ML.asc(n)
+        except Exception:  # noqa
+            accepted = False
+        for k, h in enumerate(hostile if accepted else hostile[:3]):
             kvs = [(b'', b'Content-Type: text/plain; charset=' + n.encode('ascii') + b'\n'), (b'a', h)]
             data, _ = ML.serialise(kvs, ML.Layout(be=bool(k & 1)), rng)
             out.append((data, 'codec:' + n))
